@@ -81,9 +81,41 @@ func buildPDF(n int) []byte {
 			txt := marker(p, which)
 			pg.Lines = append(pg.Lines, pdfw.Line{Font: 0, Size: 12, X: float64(72 + 7*p), Y: float64(650 - 120*k - 11*p), Bytes: []byte(txt), Text: txt})
 		}
+		// a running header on every page but the first (a cover page) and a numbered footer on every page, both in
+		// the margin bands: material for the exclusion options. Whether tabula removes them is not judged here;
+		// only that a selection behaves like the same pages of the whole document (composition clause).
+		if p >= 2 {
+			pg.Lines = append(pg.Lines, pdfw.Line{Font: 0, Size: 10, X: 72, Y: 770, Bytes: []byte(headerText), Text: headerText})
+		}
+		ft := footerText(p)
+		pg.Lines = append(pg.Lines, pdfw.Line{Font: 0, Size: 10, X: 280, Y: 30, Bytes: []byte(ft), Text: ft})
 		doc.Pages = append(doc.Pages, pg)
 	}
 	return pdfw.Write([]pdfw.Doc{doc}, pdfw.Layout{}).Bytes
+}
+
+const headerText = "Quarterly Report Draft"
+
+func footerText(p int) string { return fmt.Sprintf("Page %d", p) }
+
+func isMarginal(s string) bool { return s == headerText || strings.HasPrefix(s, "Page ") }
+
+// marginals reports, for every page whose markers occur in txt, whether the running header stands in front of
+// the page's first marker (after the previous page's last marker) and whether its numbered footer occurs.
+func marginals(txt string, n int) (hdr, ftr map[int]bool) {
+	hdr, ftr = map[int]bool{}, map[int]bool{}
+	prevEnd := 0
+	for p := 1; p <= n; p++ {
+		top := strings.Index(txt, marker(p, "top"))
+		bot := strings.Index(txt, marker(p, "bot"))
+		if top < 0 || bot < 0 || top < prevEnd {
+			continue
+		}
+		hdr[p] = strings.Contains(txt[prevEnd:top], headerText)
+		ftr[p] = strings.Contains(txt, footerText(p)+"\n") || strings.HasSuffix(strings.TrimSpace(txt), footerText(p)) || strings.Contains(txt, footerText(p)+" ")
+		prevEnd = bot
+	}
+	return hdr, ftr
 }
 
 // ---- model of one node's accumulated configuration -------------------------------
@@ -296,7 +328,9 @@ func groundTruth(op string, r result, sel []int, n int) error {
 		}
 		var got []string
 		for _, f := range r.Value.([]string) {
-			got = append(got, f[:strings.Index(f, "@")])
+			if t := f[:strings.Index(f, "@")]; !isMarginal(t) {
+				got = append(got, t)
+			}
 		}
 		if !reflect.DeepEqual(got, want) {
 			return fmt.Errorf("Fragments() = %v, want %v", got, want)
@@ -440,6 +474,34 @@ func checkCase(c Case) error {
 						}
 					}
 				}
+				// composition: with the same options, a selection shows each of its pages exactly as the whole
+				// document shows that page (running header in front of it or not, numbered footer or not)
+				if st.Op == "text" && !got.Err && !oor && !cf.explicitEmpty() {
+					var optsOnly config
+					for _, cl := range cf.calls {
+						if cl.Kind == "opt" {
+							optsOnly.calls = append(optsOnly.calls, cl)
+						}
+					}
+					whole := fresh(path, optsOnly)
+					wt, _, werr := whole.Text()
+					if werr == nil {
+						wh, wf := marginals(wt, c.NPages)
+						gh, gf := marginals(got.Value.(string), c.NPages)
+						for _, p := range sel {
+							if _, ok := wh[p]; !ok {
+								continue
+							}
+							if _, ok := gh[p]; !ok {
+								continue
+							}
+							if gh[p] != wh[p] || gf[p] != wf[p] {
+								return fmt.Errorf("%s (config %+v): page %d of the selection has header=%v footer=%v, the same page of the whole document (same options) has header=%v footer=%v",
+									where, cf.calls, p, gh[p], gf[p], wh[p], wf[p])
+							}
+						}
+					}
+				}
 				// independence of history: same answer as a fresh extractor with the same configuration
 				tw := fresh(path, cf)
 				want := run(tw, st.Op)
@@ -505,6 +567,28 @@ func genCall(t *rapid.T, n int) Call {
 func genCase(t *rapid.T) Case {
 	c := Case{NPages: rapid.IntRange(1, 8).Draw(t, "npages")}
 	c.File = rapid.SampledFrom([]string{"ok", "ok", "ok", "ok", "ok", "ok", "missing", "truncated", "wrongext"}).Draw(t, "file")
+	if rapid.IntRange(0, 2).Draw(t, "family") == 0 {
+		// a family: one parent that already selected a range, several children derived from it one after the
+		// other, and only then operations on all of them (siblings must not see each other's selections)
+		a := rapid.IntRange(1, c.NPages).Draw(t, "a")
+		b := rapid.IntRange(a, c.NPages).Draw(t, "b")
+		c.Steps = append(c.Steps, Step{Op: "derive", Node: 1, Parent: 0, Call: &Call{Kind: "range", A: a, B: b}})
+		kids := rapid.IntRange(2, 4).Draw(t, "kids")
+		for k := 0; k < kids; k++ {
+			var cl Call
+			if rapid.IntRange(0, 3).Draw(t, "kidOpt") == 0 {
+				cl = Call{Kind: "opt", Opt: rapid.SampledFrom(opts).Draw(t, "opt")}
+			} else {
+				cl = Call{Kind: "pages", List: []int{rapid.IntRange(1, c.NPages).Draw(t, "p")}}
+			}
+			c.Steps = append(c.Steps, Step{Op: "derive", Node: 2 + k, Parent: 1, Call: &cl})
+		}
+		order := rapid.Permutation([]int{1, 2, 3, 4, 5}[:kids+1]).Draw(t, "order")
+		for _, nd := range order {
+			c.Steps = append(c.Steps, Step{Op: rapid.SampledFrom([]string{"text", "fragments", "document", "chunks"}).Draw(t, "famOp"), Node: nd})
+		}
+		return c
+	}
 	nodes := 1
 	ns := rapid.IntRange(2, 14).Draw(t, "steps")
 	for i := 0; i < ns; i++ {
